@@ -107,16 +107,39 @@ func AddDirectedVolumeOps(ops []Op, acct string) []Op {
 		{S: acct, D: "world", As: "USD", N: 1},
 	}}
 	b.Norm()
+	// on the other asset the opposite order: a back-dated insert FOLLOWED by a later-dated one.  (On USD the back-dated
+	// transaction stays the LAST INSERTED move of its pairs while an earlier-inserted move is later-dated: what
+	// discriminates "latest by effective date" from "latest inserted".)
+	a2 := Op{K: "create", L: ops[0].L, Now: now, Ts: back, Ps: []Posting{
+		{S: "world", D: acct, As: "EUR/2", N: 2},
+	}}
+	a2.Norm()
 	c := Op{K: "create", L: ops[0].L, Now: now, Ps: []Posting{
-		{S: "world", D: acct, As: "USD", N: 1},
-		{S: acct, D: "orders:1", As: "USD", N: 1},
+		{S: "world", D: acct, As: "EUR/2", N: 1},
+		{S: acct, D: "orders:1", As: "EUR/2", N: 1},
 	}}
 	c.Norm()
-	out := make([]Op, 0, len(ops)+3)
+	out := make([]Op, 0, len(ops)+4)
 	out = append(out, ops[:mid]...)
-	out = append(out, b, a, c) // a later-dated one, then the back-dated insert, then a later-dated one again
+	out = append(out, b, a, a2, c)
 	out = append(out, ops[mid:]...)
 	return out
+}
+
+// DirectedReads is the fixed menu issued at every read point (now = instant of the last write).
+func DirectedReads(now int) []ReadQ {
+	between := now - 1
+	if between < 1 {
+		between = 1
+	}
+	agg := func(pit int, ins bool) ReadQ {
+		return ReadQ{Res: "agg", Pit: pit, Ins: ins, Filter: TrueNode(), Order: "asc"}
+	}
+	return []ReadQ{
+		agg(MaxInstant, false), agg(now, false), agg(between, false), agg(now, true),
+		{Res: "accounts", Pit: now, XVol: true, XEvol: true, Filter: TrueNode(), Order: "asc", Count: true},
+		{Res: "volumes", Pit: now, Filter: TrueNode(), Order: "asc"},
+	}
 }
 
 var (
@@ -320,6 +343,8 @@ type ReadOut struct {
 	PrevOK bool        `json:"prevChecked"`
 	Full   []any       `json:"full"`   // the same query in ONE page (pageSize 100): the reference enumeration for pagination
 	FullOK bool        `json:"fullOK"` // full was requested and answered
+	Base   []any       `json:"base"`   // filtered aggregated balances only: the same read without the filter
+	BaseOK bool        `json:"baseOK"`
 	Count  int         `json:"count"`  // -1: not requested
 	OD     bool        `json:"od"`     // some result of this read depends on an order the query does not specify
 }
@@ -738,7 +763,7 @@ func baseRes(q ReadQ) string {
 
 // ExecRead issues the read (all its pages, the previous-cursor probes and the count) and projects it.
 func (e *Env) ExecRead(l string, q ReadQ) (ReadOut, error) {
-	out := ReadOut{Pages: []Page{}, Prevs: []PrevProbe{}, Full: []any{}, Count: -1}
+	out := ReadOut{Pages: []Page{}, Prevs: []PrevProbe{}, Full: []any{}, Base: []any{}, Count: -1}
 	e.PG.TakeNotes()
 	defer func() {
 		for _, n := range e.PG.TakeNotes() {
@@ -875,6 +900,18 @@ func (e *Env) ExecRead(l string, q ReadQ) (ReadOut, error) {
 			return out, nil
 		}
 		out.Full, out.FullOK = pf.Items, true
+	}
+	if !q.IsTpl && q.Res == "agg" && q.Filter.Op != "true" {
+		// the same aggregate WITHOUT the filter: lets TLC tell a wrong fold from a wrong selection
+		q1 := q
+		q1.Filter = TrueNode()
+		pb, st, _, err := do(e.firstRequest(l, q1))
+		if err != nil {
+			return out, err
+		}
+		if pb != nil && st == "ok" {
+			out.Base, out.BaseOK = pb.Items, true
+		}
 	}
 	if q.Count && !q.IsTpl && (q.Res == "accounts" || q.Res == "transactions") {
 		v := url.Values{}
@@ -1428,6 +1465,14 @@ func RunReadsCase(c ReadsCase) ([]RLine, error) {
 			}
 			for k := 0; k < perPoint; k++ {
 				if err := read(g.Read()); err != nil {
+					return nil, err
+				}
+			}
+			// a fixed menu at every read point: UNFILTERED reads as of instants at / just before / after the last write, in
+			// both date modes (random reads rarely combine "unfiltered", "effective mode" and "pit at or after the latest
+			// effective date", which is what discriminates how the latest move of a pair is chosen)
+			for _, q := range DirectedReads(now) {
+				if err := read(q); err != nil {
 					return nil, err
 				}
 			}
